@@ -16,7 +16,7 @@ Open Scope Q_scope.
 Open Scope string_scope.
 """
 
-CORPUS = [("exp2d", "tls"), ("exp2c", "tls"), ("exp2d", "lsq"), ("twoexp", "lsq"), ("pade", "tls"), ("cosh", "tls")]
+CORPUS = [("exp2d", "tls"), ("exp2c", "tls"), ("exp2d", "lsq"), ("twoexp", "lsq"), ("pade", "tls"), ("cosh", "tls"), ("exp2c", "lsq+corr+priors"), ("rational", "lsq+corr+priors")]
 VERDICTS = ["fit_values_ok", "fit_stationary", "fit_chisq_ok", "fit_implicit"]
 
 
@@ -65,8 +65,11 @@ def run(ctx):
     for i in range(ncase):
         name = rng.choice(sorted(fam))
         kind = rng.choice(["lsq", "lsq", "lsq", "tls"])
+        forced = None
         if i < len(CORPUS):                   # stratification: combinations every run must contain
             name, kind = CORPUS[i]
+            if kind == "lsq+corr+priors":
+                kind, forced = "lsq", ("estimated", "dict")
         npar, ncomp, build, ptrue, xgen = fam[name]
         npts = rng.randint(npar + 3, npar + 5)
         xs = xgen(rng, npts)
@@ -97,6 +100,8 @@ def run(ctx):
                 if kind == "lsq":
                     corr_mode = rng.choice(["none", "none", "estimated"])
                     prior_mode = rng.choice(["none", "none", "dict"])
+                    if forced:
+                        corr_mode, prior_mode = forced
                     kw["initial_guess"] = [p * rng.uniform(0.9, 1.1) for p in ptrue]
                     mask, pri = [], []
                     if prior_mode == "dict":
